@@ -18,7 +18,7 @@ THEOREMS = ['C08.req_subset', 'C08.wanted_bounded', 'C08.echo_needs_label', 'C08
             'C08.sasl_entered_by_ack', 'C08.sasl_after_ack', 'C08.saslAcked_only_by_ack', 'C08.cap_end_once',
             'C08.cap_end_counted', 'C08.cap_end_from_negotiation', 'C08.cap_end_outstanding_witness', 'C08.reset_fresh',
             'C08.epoch_clean', 'C08.epoch_clean_scheduled', 'C08.new_socket_only_by_error', 'C08.feedLines_stops', 'C08.flush_wire',
-            'C08.progress', 'C08.no_stuck_state', 'C08.jR11']
+            'C08.progress', 'C08.no_stuck_state', 'C08.jR11', 'C08.srvMoveB_sound']
 TRUSTED = ['Lean 4.33.0 kernel; axioms ⊆ {propext, Classical.choice, Quot.sound}',
            'harness/extractors/conn.py (FSM states and guards, expect_state lists, REQUEST_CAPABILITIES, _nickSetters, MAX_LINE_SIZE, AUTHENTICATE_CHUNK_SIZE → Gen/Conn.lean)',
            'harness/c08.py: script generators, stub driver, canonical observation, hex line protocol',
@@ -193,13 +193,13 @@ def parse_line(b, line):
 
 class ImplRun(object):
     """one Irc object driven step by step; records ops, observations and the model's op lines"""
-    def __init__(self, cfg):
+    def __init__(self, cfg, nov3=False):
         self.b = boot()
         self.cfg = cfg
         self.irc = new_irc(cfg)
         self.ops = []
         self.obs = [observe(self.irc)]
-        self.lines = [cfg_line(cfg)]
+        self.lines = [cfg_line(cfg) + ('\tnov3:1' if nov3 else '')]
     def msg(self, line):
         self.ops.append(('msg', line))
         m = parse_line(self.b, line)
@@ -1100,8 +1100,9 @@ def script_adversarial(r, cfg, n):
 def script_conformant(r, cfg, noise=0.0, limit=120):
     """the bot against a conformant server; returns (run, stuck: bool).  `noise` > 0 mixes in
     adversarial lines (then the script is not judged for progress)."""
-    run = ImplRun(cfg)
     srv = ConfServer(r)
+    run = ImplRun(cfg, nov3=not srv.ircv3)
+    run.conformant = not noise
     srv.see(run.obs[0].msgs)
     aborted = False
     steps = 0
@@ -1210,12 +1211,18 @@ def make_case(run, kind, stuck=False):
     c.finding = classify_finding(run, bad) if bad else None
     c._lines = run.lines
     c._bad = bad
+    c._viewq = bool(getattr(run, 'conformant', False))
     return c
+
+VIEW_STATS = {'conformant_scripts': 0, 'accepted_by_lean_relation': 0, 'server_moves_accepted': 0, 'outside_relation': 0,
+              'progress_conclusion_false_on_model': 0}
 
 def fill_model(cases, prop=None):
     lines = []
     for c in cases:
         lines += [l for l in c._lines if l is not None]
+        if getattr(c, '_viewq', False):
+            lines.append('viewq')
     outs = wire.run_driver(prop or PROPERTY, lines)
     i = 0
     for c in cases:
@@ -1225,6 +1232,19 @@ def fill_model(cases, prop=None):
                 mo.append('skipped')
             else:
                 mo.append(outs[i]); i += 1
+        if getattr(c, '_viewq', False):
+            # the Lean relation SrvMove judged every server line of this conformant script; on the accepted
+            # ones the conclusion of theorem `progress` is re-evaluated on the model (must hold)
+            q = dict(kv.split('=') for kv in outs[i].split(' ')); i += 1
+            VIEW_STATS['conformant_scripts'] += 1
+            VIEW_STATS['server_moves_accepted'] += int(q['acc'])
+            if q['rej'] == '0':
+                VIEW_STATS['accepted_by_lean_relation'] += 1
+                if not (q['after'] == '1' or q['aborted'] == '1' or q['owes'] == '1'):
+                    VIEW_STATS['progress_conclusion_false_on_model'] += 1
+                    mo.append('PROGRESS-CONCLUSION-FALSE')
+            else:
+                VIEW_STATS['outside_relation'] += 1
         if getattr(c, '_skip_first', False):
             mo = mo[1:]          # real-driver runs: the observation after `new` has no counterpart
         impl = c.impl.split('\n')
@@ -1274,10 +1294,36 @@ RULE = ('seeded server scripts against a real irclib.Irc (Owner plugin loaded, w
         'FSM state, capability sets, SASL fields, decoder, nick, afterConnect, exception class, REQUEST_CAPABILITIES, STS store) is compared with the model. '
         'A case is non-trivial when it has at least one tag; distinct = distinct (cfg, ops).')
 
+EXH_ALPHABET = [':irc.test CAP * LS :sasl multi-prefix echo-message', ':irc.test CAP * LS * :labeled-response batch',
+                ':irc.test CAP * ACK :multi-prefix sasl', ':irc.test CAP * ACK :echo-message labeled-response multi-prefix sasl',
+                ':irc.test CAP * NAK :multi-prefix sasl', ':irc.test CAP * NEW :batch', ':irc.test CAP * DEL :sasl',
+                'AUTHENTICATE +', ':irc.test 903 test :ok', ':irc.test 904 test :failed', ':irc.test 376 test :End of MOTD',
+                ':irc.test 433 * test :Nickname is already in use']
+
+def explore_exhaustive(maxlen, cfgs):
+    """every script of length <= maxlen over EXH_ALPHABET (differential testing, thorough tier)"""
+    import itertools
+    boot()
+    cases = []
+    for cfg in cfgs:
+        for n in range(1, maxlen + 1):
+            for tup in itertools.product(range(len(EXH_ALPHABET)), repeat=n):
+                run = ImplRun(cfg)
+                for i in tup:
+                    run.msg(EXH_ALPHABET[i])
+                run.close()
+                c = make_case(run, 'exhaustive')
+                c.oracle_ok = c.oracle_ok and not required_oracle(cfg, run.ops, run.obs)
+                cases.append(c)
+    return cases
+
 def run(ctx):
     build = leanbuild.ensure(PROPERTY, THEOREMS, thorough=ctx.thorough, extractors=['Conn'])
-    scale = 12 if ctx.thorough else 1
-    cases = explore(ctx, 900 * scale, 700 * scale, 400 * scale, 250 * scale)
+    scale = 10 if ctx.thorough else 1
+    cases = explore(ctx, 3000 * scale, 2400 * scale, 1400 * scale, 900 * scale)
+    if ctx.thorough:
+        cases += explore_exhaustive(4, [{'mechs': ['plain'], 'sasluser': 'u', 'saslpass': 'p'},
+                                        {'mechs': ['external', 'plain'], 'certfile': True, 'sasluser': 'u', 'saslpass': 'p', 'required': True}])
     if build.driver_ok:
         fill_model(cases)
     def search(disagreements, broken):
@@ -1286,7 +1332,8 @@ def run(ctx):
         os.environ['VERIF_SEED'] = str(ctx.seed)
         return [c for c in more if c.oracle_ok is False]
     return verdict.conclude(PROPERTY, ctx.tier, ctx.seed, build, cases, search=search, rule=RULE,
-                            finding_status=finding_status(), trusted_base=TRUSTED, assumptions=ASSUMPTIONS, t0=ctx.t0)
+                            finding_status=finding_status(), trusted_base=TRUSTED, assumptions=ASSUMPTIONS, t0=ctx.t0,
+                            extra={'conformant_server_relation': dict(VIEW_STATS)})
 
 def replay(ctx, path):
     d = json.load(open(path))
